@@ -10,8 +10,9 @@ ROUND2 = '--round2' in sys.argv
 ROUND3 = '--round3' in sys.argv
 ROUND4 = '--round4' in sys.argv
 ROUND5 = '--round5' in sys.argv
-SRC = '/tmp/seed5-C*/[AB]' if ROUND5 else '/tmp/seed4-C*/[AB]' if ROUND4 else '/tmp/seed3-C*/[AB]' if ROUND3 else ('/tmp/seed2-C*/[AB]' if ROUND2 else '/tmp/seed-C*/[AB]')
-VMAP = {'A': 'I', 'B': 'J'} if ROUND5 else {'A': 'G', 'B': 'H'} if ROUND4 else {'A': 'E', 'B': 'F'} if ROUND3 else ({'A': 'C', 'B': 'D'} if ROUND2 else {'A': 'A', 'B': 'B'})
+ROUND6 = '--round6' in sys.argv
+SRC = '/tmp/seed6-C*/[AB]' if ROUND6 else '/tmp/seed5-C*/[AB]' if ROUND5 else '/tmp/seed4-C*/[AB]' if ROUND4 else '/tmp/seed3-C*/[AB]' if ROUND3 else ('/tmp/seed2-C*/[AB]' if ROUND2 else '/tmp/seed-C*/[AB]')
+VMAP = {'A': 'K', 'B': 'L'} if ROUND6 else {'A': 'I', 'B': 'J'} if ROUND5 else {'A': 'G', 'B': 'H'} if ROUND4 else {'A': 'E', 'B': 'F'} if ROUND3 else ({'A': 'C', 'B': 'D'} if ROUND2 else {'A': 'A', 'B': 'B'})
 
 def run_checks():
     procs = {p: subprocess.Popen(['/verif/bin/bornocheck', '-property', p, '-scratch'], stdout=subprocess.PIPE, stderr=subprocess.STDOUT) for p in props}
@@ -23,7 +24,7 @@ def run_checks():
     return res
 
 for sd in sorted(glob.glob(SRC)):
-    pid, var = sd.split('/')[2].replace('seed5-', '').replace('seed4-', '').replace('seed3-', '').replace('seed2-', '').replace('seed-', ''), VMAP[sd.split('/')[3]]
+    pid, var = sd.split('/')[2].replace('seed6-', '').replace('seed5-', '').replace('seed4-', '').replace('seed3-', '').replace('seed2-', '').replace('seed-', ''), VMAP[sd.split('/')[3]]
     name = f'{pid}-{var}'
     if only and name not in only:
         continue
